@@ -71,21 +71,51 @@ def push (s : MyRsiState α) (v : α) : MyRsiState α :=
 def emit (s : MyRsiState α) : MyRsiState α :=
   if s.cu + s.cd = 0 then s else { s with out := (s.cu - s.cd) / (s.cu + s.cd) }
 
-theorem step_eq (N : Nat) (hN : 0 < N) (s : MyRsiState α) (v : α) :
+theorem sum_gp_nonneg (W : List α) : 0 ≤ sumL (W.map gp) := by
+  induction W with
+  | nil => simp
+  | cons d W ih => simp only [List.map_cons, sumL_cons, gp]; split <;> linarith
+
+theorem sum_lp_nonneg (W : List α) : 0 ≤ sumL (W.map lp) := by
+  induction W with
+  | nil => simp
+  | cons d W ih =>
+    simp only [List.map_cons, sumL_cons, lp]
+    split
+    · linarith
+    · rename_i h; have := not_lt.mp h; linarith
+
+/-- the clamp `.max(0)` after a removal is the identity whenever the running sums stay non-negative — which the invariant
+guarantees in exact arithmetic -/
+theorem step_eq (N : Nat) (hN : 0 < N) (s : MyRsiState α) (v : α)
+    (hnn : N ≤ (reset s v).q.length → 0 ≤ (evict (reset s v)).cu ∧ 0 ≤ (evict (reset s v)).cd) :
     (myRsiCore N).step s v = .ok (emit (push (if N ≤ (reset s v).q.length then evict (reset s v) else reset s v) v)) := by
   simp only [myRsiCore, nat_eq, Nat.cast_zero]
   have hr : (if s.q.isEmpty = true then ({ s with oldestVal := v, lastVal := v } : MyRsiState α) else s) = reset s v := rfl
   rw [hr]
+  revert hnn
   generalize reset s v = s0
+  intro hnn
   by_cases hfull : N ≤ s0.q.length
   · cases hq : s0.q with
     | nil => rw [hq] at hfull; simp at hfull; omega
     | cons old rest =>
       have hfull' : N ≤ rest.length + 1 := by rw [hq] at hfull; simpa using hfull
+      have hn := hnn hfull
+      simp only [evict, hq] at hn
       simp only [hq, List.length_cons, hfull', if_true, popFront, bind, Except.bind, pure, Except.pure]
       simp only [evict, hq, push, emit]
-      by_cases h1 : s0.oldestVal < old <;> by_cases h2 : s0.lastVal < v <;>
-        simp only [h1, h2, if_true, if_false] <;> (split <;> simp_all)
+      by_cases h1 : s0.oldestVal < old
+      · simp only [h1, if_true] at hn
+        have hm := Rsi.maxv_of_nonneg _ hn.1
+        simp only [nat_eq, Nat.cast_zero] at hm
+        by_cases h2 : s0.lastVal < v <;>
+          simp only [h1, h2, hm, if_true, if_false] <;> (split <;> simp_all)
+      · simp only [h1, if_false] at hn
+        have hm := Rsi.maxv_of_nonneg _ hn.2
+        simp only [nat_eq, Nat.cast_zero] at hm
+        by_cases h2 : s0.lastVal < v <;>
+          simp only [h1, h2, hm, if_true, if_false] <;> (split <;> simp_all)
   · simp only [hfull, if_false, bind, Except.bind, pure, Except.pure]
     simp only [push, emit]
     by_cases h2 : s0.lastVal < v <;> simp only [h2, if_true, if_false] <;> (split <;> simp_all)
@@ -184,7 +214,28 @@ theorem emit_inv (N : Nat) (t : MyRsiState α) (xs : List α) (x : α) (h : PInv
 
 theorem step_ok (N : Nat) (hN : 0 < N) (s : MyRsiState α) (xs : List α) (x : α) (h : Inv N s xs) :
     ∃ s', (myRsiCore N).step s x = .ok s' ∧ Inv N s' (xs ++ [x]) := by
-  refine ⟨_, step_eq N hN s x, ?_⟩
+  refine ⟨_, step_eq N hN s x ?_, ?_⟩
+  · intro hfull
+    have hcu := h.hcu
+    have hcd := h.hcd
+    by_cases h0 : s.q = []
+    · have : reset s x = { s with oldestVal := x, lastVal := x } := by simp [reset, h0]
+      rw [this] at hfull; simp [h0] at hfull; omega
+    · have hr : reset s x = s := by simp only [reset]; rw [if_neg]; simpa using h0
+      rw [hr]
+      obtain ⟨old, rest, hqe⟩ := List.exists_cons_of_ne_nil h0
+      have hgs : s.cu = gp (old - s.oldestVal) + sumL ((diffs old rest).map gp) := by rw [hcu, hqe]; simp [diffs]
+      have hls : s.cd = lp (old - s.oldestVal) + sumL ((diffs old rest).map lp) := by rw [hcd, hqe]; simp [diffs]
+      have g0 := sum_gp_nonneg (diffs old rest)
+      have l0 := sum_lp_nonneg (diffs old rest)
+      simp only [evict, hqe]
+      by_cases hc : s.oldestVal < old
+      · have hc' : 0 < old - s.oldestVal := by linarith
+        simp only [hc, if_true, hgs, hls, gp, lp, hc']
+        constructor <;> linarith
+      · have hc' : ¬ 0 < old - s.oldestVal := by intro h'; apply hc; linarith
+        simp only [hc, if_false, hgs, hls, gp, lp, hc']
+        constructor <;> linarith
   apply emit_inv N _ xs x (push_pinv N hN s xs x h.toPInv)
   have hout := h.hout
   have e : ∀ t : MyRsiState α, (push t x).out = t.out := by
